@@ -187,7 +187,8 @@ def run_case(ctx, k, rng):
             kd2["cov"] = (np.asarray(kd2["cov"], float) * 4).tolist()
             sibs.append(("same geometry, variance x4", geom, kk2, kd2))
         elif kd2["kind"] == "uniform":
-            kk2["kernel_params"]["width"] *= 2; kd2["width"] *= 2
+            kd2["width"] *= 2
+            kk2["kernel_params"] = {"width": kd2["width"], "height": kd2["height"]}
             sibs.append(("same geometry, box width x2", geom, kk2, kd2))
         for what, gg, kk, kd in sibs:
             try:
